@@ -274,6 +274,38 @@ fn interval_sexp(i: &Option<NonRevokedInterval>) -> String {
     }
 }
 
+/// The abstract request read off the JSON DOCUMENT (names, predicate types and thresholds, intervals at the three
+/// places); only the restrictions are taken from the parsed object (their parser is C16's subject). A request whose
+/// own deserialiser changes a threshold or drops an interval is then verified against what the document says.
+pub fn request_sexp_doc(doc: &Value, r: &PresentationRequest) -> String {
+    let p = r.value();
+    let iv = |v: &Value| -> String {
+        match v.as_object() {
+            None => "()".into(),
+            Some(o) => format!("(({} {}))", sx::opt(o.get("from").and_then(|x| x.as_u64()), |x| sx::n(x)), sx::opt(o.get("to").and_then(|x| x.as_u64()), |x| sx::n(x))),
+        }
+    };
+    let empty = serde_json::Map::new();
+    let mut attrs: Vec<(String, String)> = doc["requested_attributes"].as_object().unwrap_or(&empty).iter().map(|(k, a)| {
+        let names: Option<Vec<String>> = a["names"].as_array().map(|l| l.iter().filter_map(|x| x.as_str().map(|s| s.to_string())).collect());
+        (k.clone(), format!("({} ({} {} {} {}))", sx::s(k),
+            sx::opt(a["name"].as_str(), |n| sx::s(n)),
+            sx::opt(names.as_ref(), |ns| sx::list(ns.iter(), |n| sx::s(n))),
+            sx::opt(p.requested_attributes.get(k).and_then(|t| t.restrictions.as_ref()), |q| sx::query(q)),
+            iv(&a["non_revoked"])))
+    }).collect();
+    attrs.sort();
+    let mut preds: Vec<(String, String)> = doc["requested_predicates"].as_object().unwrap_or(&empty).iter().map(|(k, a)| {
+        let pt = match a["p_type"].as_str().unwrap_or("") { ">=" => "ge", "<=" => "le", ">" => "gt", _ => "lt" };
+        let pv = a["p_value"].as_i64().map(|x| x.to_string()).or_else(|| a["p_value"].as_u64().map(|x| x.to_string())).or_else(|| a["p_value"].as_str().map(|x| x.to_string())).unwrap_or_else(|| "0".into());
+        (k.clone(), format!("({} ({} {} {} {} {}))", sx::s(k), sx::s(a["name"].as_str().unwrap_or("")), pt, pv,
+            sx::opt(p.requested_predicates.get(k).and_then(|t| t.restrictions.as_ref()), |q| sx::query(q)), iv(&a["non_revoked"])))
+    }).collect();
+    preds.sort();
+    let nonce = doc["nonce"].as_str().unwrap_or("0").to_string();
+    format!("({} {} {} {})", nonce, sx::l(&attrs.into_iter().map(|x| x.1).collect::<Vec<_>>()), sx::l(&preds.into_iter().map(|x| x.1).collect::<Vec<_>>()), iv(&doc["non_revoked"]))
+}
+
 pub fn request_sexp(r: &PresentationRequest) -> String {
     let p = r.value();
     let mut attrs: Vec<(&String, String)> = p
